@@ -7,10 +7,13 @@ feature matrix, its root and the bandwidth that `fit` leaves in the object all b
 bandwidth) — so the stored `α` was solved against the Gram matrix of the *stored* state.
 (b) Algebra of the ridge system: `(K + λI)α = Y ⇔ Kα = Y − λα` (predictions at the centers), and the
 solution is unique for symmetric positive semi-definite `K` and `λ > 0`, so `solve`, `cholesky` and `lu`
-must return the same coefficients.  That the Laplace-family Gram matrix is PSD is an hypothesis here
-(see C05: not proved); torch's factorisations themselves are modelled, not verified.
+must return the same coefficients.  That the Laplace-family Gram matrix is PSD is no longer an
+hypothesis: `Lemmas/KernelPsd.lean` (C05, Schoenberg) gives it for `0 < q ≤ p ≤ 2`, so the system of the
+stored centers has exactly one solution (`ridge_exists_unique_lpq/_laplace/_product`).  torch's
+factorisations themselves are modelled, not verified.
 -/
 import Xrfmv.Lemmas.FitLoop
+import Xrfmv.Lemmas.KernelPsd
 import Mathlib.LinearAlgebra.Matrix.PosDef
 import Mathlib.Algebra.Order.Star.Real
 
@@ -77,6 +80,41 @@ theorem ridge_unique_matrix (K : Matrix n n ℝ) (hK : K.PosSemidef) (lam : ℝ)
     (by ext i; have := congrFun (congrFun hA i) j; simpa [Matrix.mul_apply, Matrix.mulVec, dotProduct] using this)
     (by ext i; have := congrFun (congrFun hB i) j; simpa [Matrix.mul_apply, Matrix.mulVec, dotProduct] using this)
   exact congrFun this i
+
+/-- Existence and uniqueness: for PSD `K` and `λ > 0` the ridge system has exactly one solution. -/
+theorem ridge_exists_unique (K : Matrix n n ℝ) (hK : K.PosSemidef) (lam : ℝ) (hl : 0 < lam)
+    (Y : Matrix n m ℝ) : ∃! A : Matrix n m ℝ, (K + lam • (1 : Matrix n n ℝ)) * A = Y := by
+  have hinj : Function.Injective (K + lam • (1 : Matrix n n ℝ)).mulVec := fun a b h =>
+    ridge_unique K hK lam hl a b _ h rfl
+  have hdet := (Matrix.isUnit_iff_isUnit_det _).mp (Matrix.mulVec_injective_iff_isUnit.mp hinj)
+  exact ⟨(K + lam • (1 : Matrix n n ℝ))⁻¹ * Y, Matrix.mul_nonsing_inv_cancel_left _ Y hdet,
+    fun B hB => ridge_unique_matrix K hK lam hl B _ Y hB (Matrix.mul_nonsing_inv_cancel_left _ Y hdet)⟩
+
+open Xrfmv.Kernel in
+/-- **C02(b), closed**: the ridge system of the stored centers under the stored transform and bandwidth
+has exactly one solution for the Lpq Laplace kernel, `0 < q ≤ p ≤ 2`, `L > 0`, `λ > 0` — any centers
+(repeated ones included), any transform, any number of outputs. -/
+theorem ridge_exists_unique_lpq {p q L : ℝ} (hq : 0 < q) (hqp : q ≤ p) (hp2 : p ≤ 2) (hL : 0 < L)
+    (T : Transform ℝ) {d k c : ℕ} (xs : Fin k → Fin d → ℝ) (lam : ℝ) (hl : 0 < lam)
+    (Y : Matrix (Fin k) (Fin c) ℝ) :
+    ∃! A : Matrix (Fin k) (Fin c) ℝ, (gram (.lpq p q L) T xs + lam • (1 : Matrix (Fin k) (Fin k) ℝ)) * A = Y :=
+  ridge_exists_unique _ (gram_lpq_posSemidef hq hqp hp2 hL T xs) lam hl Y
+
+open Xrfmv.Kernel in
+/-- the L2 Laplace kernel (`'l2'`, the default; exponent `0 < q ≤ 2`), -/
+theorem ridge_exists_unique_laplace {q L : ℝ} (hq : 0 < q) (hq2 : q ≤ 2) (hL : 0 < L)
+    (T : Transform ℝ) {d k c : ℕ} (xs : Fin k → Fin d → ℝ) (lam : ℝ) (hl : 0 < lam)
+    (Y : Matrix (Fin k) (Fin c) ℝ) :
+    ∃! A : Matrix (Fin k) (Fin c) ℝ, (gram (.laplace q L) T xs + lam • (1 : Matrix (Fin k) (Fin k) ℝ)) * A = Y := by
+  rw [gram_laplace_eq]; exact ridge_exists_unique_lpq hq hq2 le_rfl hL T xs lam hl Y
+
+open Xrfmv.Kernel in
+/-- and the product kernel (`'l1'`; exponent `0 < q ≤ 2`). -/
+theorem ridge_exists_unique_product {q L : ℝ} (hq : 0 < q) (hq2 : q ≤ 2) (hL : 0 < L)
+    (T : Transform ℝ) {d k c : ℕ} (xs : Fin k → Fin d → ℝ) (lam : ℝ) (hl : 0 < lam)
+    (Y : Matrix (Fin k) (Fin c) ℝ) :
+    ∃! A : Matrix (Fin k) (Fin c) ℝ, (gram (.product q L) T xs + lam • (1 : Matrix (Fin k) (Fin k) ℝ)) * A = Y := by
+  rw [gram_product_eq hq]; exact ridge_exists_unique_lpq hq le_rfl hq2 hL T xs lam hl Y
 
 /-- Non-vacuity: the identity Gram matrix (distinct far-apart points) is PSD and `λ = 1e-3 > 0`. -/
 example : (1 : Matrix (Fin 3) (Fin 3) ℝ).PosSemidef ∧ (0 : ℝ) < 1e-3 :=
